@@ -162,7 +162,86 @@ def _fold_check(rep, h, hws, gname, hnode, table=None):
                    "species that occurs on both sides (a catalyst) count as neither consumed nor produced", node=h.node)
 
 
+def _pred_table(fi, kind, table):
+    """Evaluate a siphon/trap predicate on every one-reaction net over three species (reactants, products any subsets) and every non-empty
+    candidate set, plus a few two-reaction nets; arcs carry role/stoich exactly as the view writer emits them (reactant arcs species->reaction,
+    product arcs reaction->species).  -> (disagreements, cases)   Undecided propagates."""
+    import itertools
+    from ..absval import eval_function, _NOVALUE, eval_expr as _ev
+    Gp, ORD, RN, SI = fi.params[:4]
+    species = ("a", "b", "c")
+    subsets = [tuple(x for x, keep in zip(species, bits) if keep) for bits in itertools.product((0, 1), repeat=3)]
+    r_in, p_out = table["reactant"]["dir"] == "in", table["product"]["dir"] == "out"
+    if not (r_in and p_out):
+        raise Undecided("view writer orientation is not (reactant: in-arcs, product: out-arcs)")
+
+    def nets():
+        for re_, pr_ in itertools.product(subsets, subsets):
+            yield {"r1": (re_, pr_)}
+        for a_, b_ in ((("a",), ("b",)), (("b",), ("a",)), ((), ("a",)), (("a",), ()), (("a", "b"), ("c",))):
+            for c_, d_ in ((("b",), ("c",)), (("c",), ("a",)), ((), ("c",)), (("a",), ("a",))):
+                yield {"r1": (a_, b_), "r2": (c_, d_)}
+    bad, n = [], 0
+    for net in nets():
+        def hook(expr, env, net=net):
+            if isinstance(expr, ast.Call) and isinstance(expr.func, ast.Attribute) and norm(expr.func.value) == Gp and expr.args:
+                meth = expr.func.attr
+                if meth in ("in_edges", "out_edges", "edges"):
+                    data = kwarg(expr, "data")
+                    if not (data is not None and is_const(data, True)) or len(expr.args) != 1:
+                        raise Undecided(f"arc walk without data=True: {norm(expr)}")
+                    r = _ev(expr.args[0], env)
+                    if r not in net:
+                        raise Undecided(f"arc walk from a non-reaction node: {norm(expr)}")
+                    re_, pr_ = net[r]
+                    if meth == "in_edges":
+                        return tuple((s_, r, {"role": "reactant", "stoich": 1}) for s_ in re_)
+                    return tuple((r, s_, {"role": "product", "stoich": 1}) for s_ in pr_)   # DiGraph.edges(n) == out_edges(n)
+                raise Undecided(f"graph access not modelled: {norm(expr)}")
+            return _NOVALUE
+        for S in subsets:
+            idx = tuple(i for i, x in enumerate(species) if x in S)
+            got = eval_function(fi.node, {"__resolve__": hook, ORD: species, RN: tuple(sorted(net)), SI: frozenset(idx)})
+            n += 1
+            if not S:
+                want = False
+            elif kind == "siphon":
+                want = all((not (set(pr_) & set(S))) or bool(set(re_) & set(S)) for re_, pr_ in net.values())
+            else:
+                want = all((not (set(re_) & set(S))) or bool(set(pr_) & set(S)) for re_, pr_ in net.values())
+            if bool(got) != want or not isinstance(got, bool):
+                bad.append(f"net {net}, S={set(S) or '{}'}: {got!r} (expected {want})")
+    return bad, n
+
+
 def preds(rep, table):
+    spec0 = {"_is_siphon_indices": ("siphon", "siphon: every reaction that produces a member also consumes a member"),
+             "_is_trap_indices": ("trap", "trap: every reaction that consumes a member also produces a member")}
+    decided_all = True
+    for q, (kind, text) in spec0.items():
+        fi = rep.f(SR, q)
+        try:
+            bad, n = _pred_table(fi, kind, table)
+        except Undecided:
+            decided_all = False
+            break
+        directed = W.graph_is_directed(rep.repo, fi, fi.params[0])
+        rep.ob("O20.1", "R5", fi, True if directed else None, fi.params[0], "the graph walked is the directed bipartite view", {"directed": directed}, node=fi.node)
+        # where the arcs are walked by plain loops, name the walk that reads the wrong side (diagnosis; the table below decides)
+        for w in [w for w in W.walks(fi, graph_names=(fi.params[0],))]:
+            for role, cmp_ in w.roles_tested:
+                want = table.get(role, {}).get("dir")
+                rep.ob("O20.1", "R5", fi, (want == w.direction) if want else None, f"G.{w.method}({w.node}) tests role == '{role}'",
+                       f"arcs with role '{role}' are {want}-arcs of a reaction node; G.{w.method}({w.node}) on a DiGraph enumerates {w.direction}-arcs",
+                       {"walk_direction": w.direction, "writer_direction": want}, node=w.loop)
+        rep.ob("O20.2", "R13", fi, not bad, f"{q} on {n} small nets x candidate sets", text + " (arc directions and roles as the view writer emits them; the empty set is rejected; "
+               "a species on both sides of a reaction counts as consumed and as produced)", {"cases": n, "disagreements": bad[:6]}, node=fi.node)
+    if decided_all:
+        return
+    _preds_structural(rep, table)
+
+
+def _preds_structural(rep, table):
     spec = {"_is_siphon_indices": ("product", "reactant", "siphon: every reaction that produces a member also consumes a member"),
             "_is_trap_indices": ("reactant", "product", "trap: every reaction that consumes a member also produces a member")}
     shapes = {}
